@@ -90,14 +90,11 @@ def run(ctx):
         ctx.notes["runs_enumerated"] = len(runs)
         runs = runs[ctx.seed % stride::stride]
         ctx.exhaustive = False
-    traces = core.pmap(cc.record, runs, chunk=100)
-    ctx.notes["runs_refused_for_their_element_type"] = sum(1 for tr in traces if tr.get("rejected_input"))
-    traces = [tr for tr in traces if not tr.get("rejected_input")]
-    for tr in traces:
+    def each(tr):
         ncent = max([len(e.get("ctrIdx", [])) for e in tr["events"]] + [0])
         nontriv = ncent >= 2 and ncent < len(tr["pts"])
         ctx.case((str(tr["pts"]), tr["metric"], tr["k"], tr["cut"], tr["ti"], str(tr["init"]), tr["form"], tr["dtype"])
                  if nontriv else None,
                  sample={k: tr[k] for k in ("pts", "metric", "k", "cut", "ti", "init", "form")} | {"events": tr["events"][:3]}
                  if nontriv and tr["init"] else None)
-    ce.judge(ctx, ce.validate(ctx, traces, "k-centers traces"))
+    ce.record_validate_judge(ctx, runs, each, "k-centers traces")
